@@ -18,7 +18,9 @@ storage orders), tied to /repo by `harness/h_rbm.cpp` (ops `rbm_modes`, `rbm_deg
   `1/ndim`, and the projection `B_i -= dot[k]·B_k` (correct only for unit `B_k`) leaves the rotation columns
   non-orthogonal to the translations.  Harmless for C04 (only the span enters `P_tent·B_c = B`), reported as a
   finding (notes/repro_rbm_not_orthonormal.cpp);
-* `rbm_depends_on_prior_content`: `B.resize` keeps the caller's old values, which leak into the result.
+* `rbm_depends_on_prior_content`: `B.resize` keeps the caller's old values, which leak into the result;
+* `rbm_ptent_zero_energy`: composition with `P_tent·B_c = B` — the rigid body modes lie in the range of `P_tent`
+  (`ker P_tentᵀ ⊆ ker B_rawᵀ`).
 -/
 namespace Amgcl.C04c
 open Amgcl Amgcl.RBM Finset
@@ -351,5 +353,45 @@ theorem rbm_depends_on_prior_content :
       rigidBodyModes exSqrt 2 exCoo (Array.replicate 12 7) false = .ok (nm, B') ∧
       entry 2 4 false B 0 1 = 0 ∧ entry 2 4 false B' 0 1 = 7 := by
   refine ⟨3, exB, _, by decide +kernel, rfl, by decide +kernel, by decide +kernel⟩
+
+/-! ## composition with the tentative prolongation -/
+
+/-- **Rigid body modes lie in the range of `P_tent`** (`rbm_ptent_zero_energy`, dual form).  Let `B` (row-major) be what
+`rigid_body_modes` returns, with no zero divisor, and let `P` (`n × nc`, entries `Pe j c`) and `B_c` (`nc × nmodes`,
+row-major) reproduce it, `(P·B_c)[j,k] = B[j,k]`, on every row where `a` is not zero — the conclusion of
+`reproducesB_sound` (C04, `P_tent·B_c = B` on aggregated rows) at `tol = 0`.  Then every row vector `a` with `a·P = 0`
+annihilates the translations and rotations: `ker P_tentᵀ ⊆ ker B_rawᵀ`, i.e. the rigid body modes are in the range of the
+tentative prolongation. -/
+theorem rbm_ptent_zero_energy (sqrt : K → K) (ndim : Nat) (coo B0 : Array K) (nm : Nat) (B : Array K) (ss : List K)
+    (h : rigidBodyModesFull sqrt ndim coo B0 false = .ok (nm, B, ss)) (hs : ∀ s ∈ ss, s ≠ 0)
+    (nc : Nat) (Pe : Nat → Nat → K) (Bc : Array K) (a : Nat → K)
+    (hrep : ∀ j, j < coo.size → a j = 0 ∨
+      ∀ k, k < nm → ∑ c ∈ range nc, Pe j c * Bc.getD (c * nm + k) 0 = B.getD (j * nm + k) 0)
+    (ha : ∀ c, c < nc → ∑ j ∈ range coo.size, a j * Pe j c = 0) :
+    ∀ k, k < nm → ∑ j ∈ range coo.size, a j * entry ndim coo.size false (rawModes sqrt ndim coo B0 false) j k = 0 := by
+  apply rbm_span_preserved sqrt ndim coo B0 false nm B ss h hs a
+  obtain ⟨_, _, hnm, _⟩ := rbm_ok sqrt ndim coo B0 false nm B ss h
+  intro k hk
+  have e : ∀ j ∈ range coo.size, a j * entry ndim coo.size false B j k
+      = ∑ c ∈ range nc, (a j * Pe j c) * Bc.getD (c * nm + k) 0 := by
+    intro j hj
+    have hB : entry ndim coo.size false B j k = B.getD (j * nm + k) 0 := by
+      unfold entry cell; simp [hnm]
+    rcases hrep j (Finset.mem_range.mp hj) with h0 | h1
+    · rw [h0]; simp
+    · rw [hB, ← h1 k hk, Finset.mul_sum]
+      apply Finset.sum_congr rfl
+      intro c _; ring
+  rw [Finset.sum_congr rfl e, Finset.sum_comm]
+  apply Finset.sum_eq_zero
+  intro c hc
+  rw [← Finset.sum_mul, ha c (Finset.mem_range.mp hc), zero_mul]
+
+/-- non-vacuous: `P = exB` (dense), `B_c = I_3`, `a = (−3, −1, 3, 1)` -/
+example : ∀ k, k < 3 → ∑ j ∈ range exCoo.size, (#[-3, -1, 3, 1] : Array Rat).getD j 0
+    * entry 2 exCoo.size false (rawModes exSqrt 2 exCoo #[] false) j k = 0 :=
+  rbm_ptent_zero_energy exSqrt 2 exCoo #[] 3 exB [5 / 2] ex_run (by decide +kernel) 3
+    (fun j c => exB.getD (j * 3 + c) 0) #[1, 0, 0, 0, 1, 0, 0, 0, 1] (fun j => (#[-3, -1, 3, 1] : Array Rat).getD j 0)
+    (by decide +kernel) (by decide +kernel)
 
 end Amgcl.C04c
